@@ -5,6 +5,7 @@ import (
 	"fmt"
 	"reflect"
 	"strings"
+	"testing/fstest"
 	"time"
 
 	"github.com/titpetric/vuego"
@@ -207,6 +208,8 @@ func (c *c10Case) Run(ctx *core.Ctx) {
 		c.runData(ctx)
 	case "clock":
 		c.runClock(ctx)
+	case "files":
+		c.runFiles(ctx)
 	}
 }
 
@@ -392,6 +395,35 @@ func (c *c10Case) runData(ctx *core.Ctx) {
 	ctx.Outcome(c.Entry)
 }
 
+// runFiles: the output is a function of the CURRENT template files: after the page file is
+// replaced (by a version with a later or an earlier modification time - a deployment, a
+// rollback) a long-used engine renders what a fresh one renders.
+func (c *c10Case) runFiles(ctx *core.Ctx) {
+	p := programByName(c.Prog)
+	ctx.NonTrivial()
+	m := CatalogFiles.FS()
+	eng := vuego.NewFS(m, vuego.WithComponents())
+	render := func(t vuego.Template) string {
+		var buf bytes.Buffer
+		err := t.Load(p.Page).Fill(p.Data("CANARY")).Render(bg, &buf)
+		return res(buf.String(), err)
+	}
+	ctx.Eval(1)
+	_ = render(eng)
+	for step, d := range c.Seq {
+		delta := map[string]time.Duration{"later": time.Hour, "earlier": -time.Hour, "much-earlier": -1000 * time.Hour}[d]
+		src := CatalogFiles[p.Page] + fmt.Sprintf("<!-- v%d --><em>edit %d</em>", step+1, step+1)
+		m[p.Page] = &fstest.MapFile{Data: []byte(src), ModTime: m[p.Page].ModTime.Add(delta), Mode: 0o644}
+		ctx.Eval(2)
+		got, want := render(eng), render(vuego.NewFS(m, vuego.WithComponents()))
+		if got != want {
+			ctx.Violation("depends-on-earlier-files", "page-replaced/"+d, c.Prog, fmt.Sprintf("program %s, page replaced (%v): the used engine renders %q, a fresh engine %q", c.Prog, c.Seq[:step+1], clip(got, 300), clip(want, 300)))
+			return
+		}
+	}
+	ctx.Outcome(strings.Join(c.Seq, ","))
+}
+
 // runClock: a clock that does not advance must not change the output.
 func (c *c10Case) runClock(ctx *core.Ctx) {
 	p := programByName(c.Prog)
@@ -428,7 +460,7 @@ func init() {
 		ID:    "C10",
 		Level: "model_checking",
 		Rule: "a catalogue of " + fmt.Sprint(len(Catalog)) + " programs (one per feature, incl. 6 failing ones), all on one file set. (1) map-order: with every map iteration of the vuego module behind a seam, every execution with <=d deviating occurrences (all permutations for <=4 keys, reversal+rotations above) plus two global orders must give the bytes of the ascending-order run (the looped maps also keyed by int, float64 and any); " +
-			"(2) histories: every ordered sequence of <=L (program, data set) steps - each program with its normal and with an alternative data set that flips every boolean and changes lengths and strings, with the same values in other Go types (float64 for int, typed slices and maps, a struct for a map), and without any data (nil / empty map) - on one engine through Load().Fill().Render, Vue.Render and Vue.RenderFragment, last render compared with a fresh engine, no canary of an earlier render; (3) caller data deep-equal before/after through 4 entry points, handed over as map[string]any, as a named map type and as a pointer to the map; (4) frozen and backwards clocks. states = executions whose output was compared; non-trivial = program reaches at least one map iteration / any history",
+			"(2) histories: every ordered sequence of <=L (program, data set) steps - each program with its normal and with an alternative data set that flips every boolean and changes lengths and strings, with the same values in other Go types (float64 for int, typed slices and maps, a struct for a map), and without any data (nil / empty map) - on one engine through Load().Fill().Render, Vue.Render and Vue.RenderFragment, last render compared with a fresh engine, no canary of an earlier render; (3) caller data deep-equal before/after through 4 entry points, handed over as map[string]any, as a named map type and as a pointer to the map; (4) frozen and backwards clocks; (5) the page file replaced between renders by versions with later / earlier modification times, used engine against fresh engine. states = executions whose output was compared; non-trivial = program reaches at least one map iteration / any history",
 		Bounds:      map[string]string{"quick": "d=1 deviation, L=2 (all ordered pairs)", "thorough": "d=2 deviations, L=3 (all ordered triples)"},
 		Assumptions: []string{"the instrumenter finds every range-over-map and MapKeys call of the vuego module by type (sites listed in the overlay's sites.json)", "map iteration inside dependencies (expr-lang, yaml, goldmark) is not controlled"},
 		Decode:      core.DecodeAs[c10Case](),
@@ -451,6 +483,9 @@ func init() {
 					emit(&c10Case{Part: "data", Prog: p.Name, Entry: e, Data: "ptrmap"})
 				}
 				emit(&c10Case{Part: "clock", Prog: p.Name})
+				for _, seq := range [][]string{{"later"}, {"earlier"}, {"later", "earlier"}, {"earlier", "later"}, {"much-earlier", "earlier"}, {"later", "later"}} {
+					emit(&c10Case{Part: "files", Prog: p.Name, Seq: seq})
+				}
 			}
 			for _, entry := range []string{"", "vue", "fragment"} {
 				var rec func(seq []string)
